@@ -30,7 +30,7 @@ class Contract:
     """
 
     def __init__(self, target, params, result=None, requires=None, ensures=None, raises=(), modifies=(), loops=None,
-                 spec_fns=None, inline=False, inline_callees=(), props=(), note="", trusted=False, witness=None, exposes=None, defines=None):
+                 spec_fns=None, inline=False, inline_callees=(), props=(), note="", trusted=False, witness=None, exposes=None, defines=None, ghost=None, locals=None):
         self.target = target
         self.module, self.qual = target.split(":")
         self.params = dict(params)
@@ -49,6 +49,8 @@ class Contract:
         self.witness = witness          # callable producing a concrete witness for the vacuity check
         self.defines = list((defines or {}).items())   # definitional clauses naming the result of a pure, deterministic function by an
         #                                                   uninterpreted symbol: assumed at call sites, not part of the body's obligations
+        self.ghost = dict(ghost or {})      # {"after:<statement source, whitespace-normalised>": hook(engine, env)}: ghost updates (may only write ghost fields)
+        self.locals = dict(locals or {})    # declared types of locals that start as empty literals
         self.exposes = dict(exposes or {})   # callee locals named in `ensures`: existentially quantified (fresh) at call sites
 
 
@@ -133,6 +135,8 @@ def verify_function(contract, registry, label_prefix="", feas_timeout_ms=500):
             return ("raise", raised.cls)
 
         done = eng.explore(run)
+        stale = [k for k in contract.ghost if k not in eng.ghost_hits]
+        rep.stale_ghost = stale      # anchors that no longer occur in the body: the ghost update is simply not made; obligations decide
         rep.paths = len(done)
         rep.outcomes = [(d[2]) for d in done]
         rep.obligations = list(eng.obligations.values())
